@@ -31,7 +31,10 @@ def _case(draw, worlds):
             'steps': draw(st.integers(1, 5)), 'schedule': draw(st.lists(st.integers(0, 63), max_size=200)),
             'flip': draw(st.booleans()),
             # optionally a checkpoint is saved and loaded into a fresh preconditioner before train step `load_at` (>= 1)
-            'load_at': draw(st.sampled_from([None, None, 1, 1, 2, 3])), 'load_compute_inverses': draw(st.booleans())}
+            'load_at': draw(st.sampled_from([None, None, 1, 1, 2, 3])), 'load_compute_inverses': draw(st.booleans()),
+            # (honoured when factors are updated in step()) from the second iteration on, these registered layers (indices modulo the
+            # number of layers) are in eval mode; every factor is still all-reduced exactly once per factor-update step
+            'eval_modules': draw(st.sampled_from([None, None, None, [0], [1], [0, 2]]))}
     case.update(draw(placement(W, method, prediv)))
     if method == 'inverse' and case['factor_dtype'] == 'bfloat16':
         case['factor_dtype'] = 'float64'      # bfloat16 factors + inverse method can be exactly singular (numerical domain of C01)
@@ -59,7 +62,7 @@ class C13(Prop):
     examples = {'quick': 150, 'thorough': 500}
     shards = {'quick': 4, 'thorough': 16}
     shrink_budget_s = {'quick': 30.0, 'thorough': 180.0}
-    required_labels = {'quick': ['nontrivial=True', 'strategy=HYBRID', 'strategy=MEM', 'strategy=COMM', 'symmetry=True', 'has_load=True', 'changing_interval=True'],
+    required_labels = {'quick': ['nontrivial=True', 'strategy=HYBRID', 'strategy=MEM', 'strategy=COMM', 'symmetry=True', 'has_load=True', 'changing_interval=True', 'eval_mode_layers=True'],
                        'thorough': ['nontrivial=True', 'strategy=HYBRID', 'strategy=MEM', 'strategy=COMM', 'symmetry=True', 'bucketed=True']}
 
     def strategy(self, tier):
@@ -87,11 +90,15 @@ class C13(Prop):
                 program.append({'op': 'load', 'compute_inverses': load_ci})
                 # queried right after the load, before any step has waited for the broadcasts the load started
                 program.append({'op': 'memory_usage', 'ranks': None})
-            program.append({'op': 'train', 'seed': t})
+            op = {'op': 'train', 'seed': t}
+            if t >= 1 and case.get('eval_modules') and not case['in_hook']:
+                op['eval_modules'] = case['eval_modules']
+            program.append(op)
             program.append({'op': 'memory_usage', 'ranks': None})
         labels = {'W': W, 'strategy': strat, 'method': case['method'], 'prediv': case['prediv'], 'symmetry': case['symmetry'],
                   'bucketed': case['cap'] > 0, 'in_hook': case['in_hook'], 'steps': case['steps'], 'has_load': load_at is not None,
-                  'changing_interval': isinstance(fus_v, dict) or isinstance(ius_v, dict)}
+                  'changing_interval': isinstance(fus_v, dict) or isinstance(ius_v, dict),
+                  'eval_mode_layers': bool(case.get('eval_modules')) and not case['in_hook'] and nsteps >= 2}
         res = kaisa.run_sim(case, program, case['schedule'], case['flip'], observe=('assignment', 'held'))
         if res.timed_out:
             raise RuntimeError('simulation timed out (harness)')
